@@ -14,7 +14,7 @@ Monitor shape
       Gauss samples of refined / hierarchical / trimmed topologies integrate physical monomials exactly.
 """
 
-import json, hashlib, traceback, itertools, warnings
+import json, hashlib, traceback, itertools, warnings, time
 import numpy
 from vlib.runner import Result, rng_for
 from vlib import tolerance
@@ -36,9 +36,10 @@ ASSUMPTIONS = [
     'exactness band on reference elements: pass <= 1e-12, violation > 1e-10 (tables carry 15-16 digits); values elsewhere use the 1e-9/1e-5 policy',
     'locate targets are strictly interior points of affine elements (barycentric >= 0.08); located coordinates are compared at 1e-8',
 ]
-BUDGET_S = {'quick': 110, 'thorough': 1380}
-NCASES = {'quick': 1000, 'thorough': 24000}
+BUDGET_S = {'quick': 100, 'thorough': 1380}
+NCASES = {'quick': 800, 'thorough': 16000}
 CHUNK = 25
+MINFRAC = .3      # fewer sample cases than this fraction of NCASES before the deadline: inconclusive
 VTK_FINDING = 'C09-vtk-tensor-typeerror'
 EMPTYMUL_FINDING = 'C09-empty-product-eval'
 
@@ -52,19 +53,21 @@ def plan(tier, seed):
     for fd in ([1, 1, 1], [2, 1], [1, 2], [3], [1, 1], [2], [1]):
         nd = sum(fd)
         degs = list(range(1, 7)) if quick else list(range(0, 8))
+        if quick and nd == 3:
+            degs = [1, 2, 4, 6]
         if 3 in fd:
             degs = [d for d in degs if d <= 7]
         elif 2 in fd:
             degs = [d for d in degs if d <= 6]
-        for chunk in ([degs[:3], degs[3:]] if nd == 3 else [degs]):
-            units.append(dict(kind='children', fdims=fd, degrees=chunk, nsub=(4 if quick else 40) if nd == 3 else None))
+        for chunk in ([degs[:2], degs[2:]] if nd == 3 and quick else [degs[:3], degs[3:5], degs[5:]] if nd == 3 else [degs]):
+            units.append(dict(kind='children', fdims=fd, degrees=chunk, nsub=(3 if quick else 40) if nd == 3 else None))
+    for k in range(0, 16 if quick else 160, 2):
+        units.append(dict(kind='topo', start=k, stop=k + 2))
     ntrim = 6 if quick else 60
     for fd in ([1, 1, 1], [2, 1], [1, 2], [3], [1, 1], [2], [1]):
         for k in range(0, ntrim, 2):
             units.append(dict(kind='trim', fdims=fd, start=k, stop=k + 2))
     units.append(dict(kind='plain'))
-    for k in range(0, 14 if quick else 140, 2):
-        units.append(dict(kind='topo', start=k, stop=k + 2))
     n = NCASES[tier]
     units += [dict(kind='A', start=i, stop=min(n, i + CHUNK)) for i in range(0, n, CHUNK)]
     return units
@@ -136,6 +139,9 @@ def execute(case, res):
         return
     if model.N == 0:
         res.count('A/empty_samples')
+    if model.nelems > 200 or len(model.spaces) > 5:
+        res.count('A/structure_only_too_large')      # structure monitors ran; evaluation of very wide products is left out for cost
+        return
     try:
         probs, evaluated = M.check_values(ex, real, model, numpy.random.default_rng(case['fseed']), tolerance)
     except Exception as e:
@@ -152,6 +158,13 @@ def execute(case, res):
         res.violation(monitor, case, detail)
 
 
+def fold_obs(res):
+    from vlib import c09_model as M
+    for k, v in M.OBS.items():
+        res.count(k, v)
+    M.OBS.clear()
+
+
 # ------------------------------------------------------------------------------------------------ part B units
 
 def run_b_unit(u, ctx, res):
@@ -159,7 +172,7 @@ def run_b_unit(u, ctx, res):
     from vlib import c09_model as M
     judge = X.Judge()
     kind = u['kind']
-    label = dict(u)
+    label = dict(u, seed=ctx.seed, tier=ctx.tier)
     if kind == 'plain':
         quick = ctx.tier == 'quick'
         cat = [([1], range(0, 17 if quick else 41)), ([2], range(0, 8)), ([3], range(0, 9)), ([1, 1], range(0, 9 if quick else 13)),
@@ -261,20 +274,25 @@ def run_units(units, ctx):
                 if ctx.expired():
                     res.count('cases_skipped_deadline')
                     continue
+                t0 = time.time()
                 case = gen_case(ctx.seed, i)
                 execute(case, res)
+                fold_obs(res)
+                res.count('ms/A', int(1000 * (time.time() - t0)))
                 if i % 701 == 0:
                     res.sample(dict(index=i, expr=case['expr']))
         else:
             if ctx.expired():
                 res.count('B/units_skipped_deadline')
                 continue
+            t0 = time.time()
             try:
                 with warnings.catch_warnings():
                     warnings.simplefilter('ignore')
                     run_b_unit(u, ctx, res)
             except Exception:
-                res.violation('exception in exactness unit', u, traceback.format_exc()[-1800:])
+                res.violation('exception in exactness unit', dict(u, seed=ctx.seed, tier=ctx.tier), traceback.format_exc()[-1800:])
+            res.count('ms/' + u['kind'], int(1000 * (time.time() - t0)))
     return res
 
 
@@ -284,11 +302,13 @@ def replay(case):
         execute(case, res)
     else:
         class Ctx:
-            tier = 'quick'
+            tier = case.get('tier', 'quick')
             seed = case.get('seed', 0)
             def expired(self): return False
             def rng(self, *key): return rng_for(self.seed, *key)
-        run_b_unit({k: v for k, v in case.items() if k not in ('k', 'recipe', 'degree')}, Ctx(), res)
+        with warnings.catch_warnings():
+            warnings.simplefilter('ignore')
+            run_b_unit({k: v for k, v in case.items() if k not in ('k', 'recipe', 'degree', 'seed', 'tier')}, Ctx(), res)
     return res.violations
 
 
@@ -345,8 +365,10 @@ def finalize(m, tier, seed):
                monitors=dict(structure_checks=c.get('A/structure_checks', 0), getindex_calls=c.get('A/getindex_calls', 0), eval_comparisons=c.get('A/eval_comparisons', 0),
                              integral_comparisons=c.get('A/integral_comparisons', 0), integral_vs_own_weights=c.get('A/integral_vs_own_weights', 0),
                              own_weight_tables=c.get('A/real_weight_tables', 0), own_weights_unavailable=c.get('A/real_weights_unavailable', 0),
+                             element_crosschecks=c.get('A/element_crosschecks', 0), union_take_elements=c.get('A/union_take_elements', 0), union_take_elements_regrouped=c.get('A/union_take_elements_regrouped', 0),
                              direct_evaluations=c.get('A/direct_evaluations', 0), numpy_geometry_oracle=c.get('A/numpy_geometry_oracle', 0), marginal=c.get('A/marginal', 0)),
                rejected_kinds=sorted(m.sets.get('A/rejected_kinds', ()))[:40], skip_reasons=sorted(m.sets.get('A/skip_reasons', ())),
+               worker_cpu_ms_by_unit_kind=_sub(c, 'ms/'), structure_only_too_large=c.get('A/structure_only_too_large', 0),
                max_npoints=m.maxima.get('A/max_npoints'), max_nelems=m.maxima.get('A/max_nelems'),
                exactness=dict(triples_closed_form=c.get('B/triples', 0), triples_documented=c.get('B/triples_documented', 0), triples_beyond_documented_maximum=c.get('B/triples_beyond_documented', 0),
                               child_triples=c.get('B/child_triples', 0), region_triples=c.get('B/region_triples', 0), partition_triples=c.get('B/partition_triples', 0),
@@ -359,27 +381,28 @@ def finalize(m, tier, seed):
                               reference_kinds=sorted(m.sets.get('B/kinds', ())), schemes=sorted(m.sets.get('B/schemes', ())), rejected_kinds=sorted(m.sets.get('B/rejected_kinds', ())),
                               topology_kinds=sorted(m.sets.get('B/topology_kinds', ())), exhaustive=sorted(m.sets.get('B/exhaustive', ())),
                               ref_degree_pairs=len(m.sets.get('B/ref_degree', ()))))
-    inc = None
     sc, mon, exa = cov['sample_cases'], cov['monitors'], cov['exactness']
     need_kinds = ['new', 'custom', 'topomul', 'topotake', 'locate', 'mul', 'add', 'take', 'subset', 'zip', 'rename']
+    why = []
     if c.get('selftest_failures'):
-        inc = 'oracle self-test (Duffy rule vs closed form) failed: ' + '; '.join(m.notes[:2])
-    elif sc['generated'] < .6 * NCASES[tier]:
-        inc = f"only {sc['generated']} of {NCASES[tier]} sample cases ran before the deadline"
+        why.append('oracle self-test (Duffy rule vs closed form) failed: ' + '; '.join(m.notes[:2]))
+    if exa['marginal'] or mon['marginal'] > .005 * max(1, mon['eval_comparisons'] + mon['integral_comparisons']):
+        why.append(f"{exa['marginal']} exactness residual(s) between 1e-12 and 1e-10 (max {exa['max_residual']}) / {mon['marginal']} marginal value comparison(s)")
+    if sc['generated'] < MINFRAC * NCASES[tier]:
+        why.append(f"only {sc['generated']} of {NCASES[tier]} sample cases ran before the deadline")
     elif sc['evaluated'] < .5 * sc['generated']:
-        inc = f"only {sc['evaluated']} of {sc['generated']} sample cases reached the eval/integrate monitors"
-    elif any(cov['evaluated_cases_containing'].get(k, 0) < 5 for k in need_kinds):
-        inc = 'constructor kinds barely reached by the value monitors: ' + ','.join(k for k in need_kinds if cov['evaluated_cases_containing'].get(k, 0) < 5)
-    elif any(cov['evaluated_by_depth'].get(str(d), 0) < 5 for d in (1, 2, 3, 4)):
-        inc = 'some nesting depth in 1..4 barely evaluated'
-    elif mon['integral_vs_own_weights'] < 100 or mon['integral_comparisons'] < 500 or mon['getindex_calls'] < 1000:
-        inc = 'integration monitors barely reached'
-    elif exa['units_skipped_deadline']:
-        inc = f"{exa['units_skipped_deadline']} exactness unit(s) cut by the deadline: finite tables not enumerated completely"
-    elif exa['triples_documented'] < 1500 or exa['trims_nontrivial'] < 20 or exa['with_children'] < 50 or exa['topology_integrals'] < 20:
-        inc = 'exactness tables barely reached'
-    elif not {'MosaicReference', 'WithChildrenReference'} <= set(exa['reference_kinds']):
-        inc = 'no mosaic / with-children reference produced by trimming'
-    elif exa['marginal'] or mon['marginal'] > .005 * max(1, mon['eval_comparisons'] + mon['integral_comparisons']):
-        inc = f"{exa['marginal']} exactness residual(s) between 1e-12 and 1e-10 / {mon['marginal']} marginal value comparison(s)"
+        why.append(f"only {sc['evaluated']} of {sc['generated']} sample cases reached the eval/integrate monitors")
+    if any(cov['evaluated_cases_containing'].get(k, 0) < 5 for k in need_kinds):
+        why.append('constructor kinds barely reached by the value monitors: ' + ','.join(k for k in need_kinds if cov['evaluated_cases_containing'].get(k, 0) < 5))
+    if any(cov['evaluated_by_depth'].get(str(d), 0) < 5 for d in (1, 2, 3, 4)):
+        why.append('some nesting depth in 1..4 barely evaluated')
+    if mon['integral_vs_own_weights'] < 100 or mon['integral_comparisons'] < 500 or mon['getindex_calls'] < 1000 or mon['element_crosschecks'] < 50:
+        why.append('integration / ordering monitors barely reached')
+    if exa['units_skipped_deadline']:
+        why.append(f"{exa['units_skipped_deadline']} exactness unit(s) cut by the deadline: finite tables not enumerated completely")
+    if exa['triples_documented'] < 1500 or exa['trims_nontrivial'] < 20 or exa['with_children'] < 50 or exa['topology_integrals'] < 20:
+        why.append('exactness tables barely reached')
+    if not {'MosaicReference', 'WithChildrenReference'} <= set(exa['reference_kinds']):
+        why.append('no mosaic / with-children reference produced by trimming')
+    inc = '; '.join(why) or None
     return dict(coverage=cov, inconclusive=inc)
